@@ -180,3 +180,10 @@ Theorem C14_resolved_expression_roundtrip : forall scopes e, wf e -> forall rest
   end.
 Proof. exact resolved_print_parse. Qed.
 Print Assumptions C14_resolved_expression_roundtrip.
+
+(* template data (`data="{{ ... }}"` of <template is>, parsed in object-inner mode): the value is an object
+   literal, printed with its braces, and read back in that mode as the same object *)
+Theorem C14_template_data_roundtrip : forall names fs, wf (EObj fs) -> forall rest,
+  ExprParse.binding true (sx_core names (EObj fs) ++ 125%N :: 125%N :: rest) = (Some (EObj fs), rest).
+Proof. intros names fs H rest. exact (print_parse_template_data names num_roundtrip z_to_str_head fs H rest). Qed.
+Print Assumptions C14_template_data_roundtrip.
